@@ -2,6 +2,7 @@ package main
 
 import (
 	"bytes"
+	"fmt"
 	"sort"
 	"strings"
 
@@ -161,6 +162,80 @@ func crossTableProg(seed uint64, i int, tier string) Prog {
 	for _, s := range append(append([]string{}, ns...), "", "nosuch") {
 		p.Probes = append(p.Probes, bs(s))
 	}
+	return p
+}
+
+// bigSetProg: label sets whose hash input (sum of len(name)+len(value)+2) lies around the 1 KiB
+// buffer of Hash/StableHash, where the implementations switch from a one-shot xxhash of a buffer to
+// a streaming hasher: totals 1000..1100 incl. exactly 1022..1026, one huge value, many medium
+// labels, and the switch falling at each label position.  R0 = the set, R1 = the same set with
+// one byte of the label that triggers the switch changed, R2 = the set again through a
+// ScratchBuilder, R3 = Builder(R0) with that label set to a third value.
+var bigTotals = []int{1023, 1024, 1025, 1000, 1022, 1026, 1010, 1030, 1050, 1100, 1020, 2048}
+
+func bigSetProg(seed uint64, i int, tier string) Prog {
+	r := gen.Fork(seed^0xB16B16, i)
+	T := bigTotals[(i/3)%len(bigTotals)]
+	if i >= 3*len(bigTotals) {
+		T = int(r.Range(990, 1110))
+	}
+	type nv struct{ n, v string }
+	var set []nv
+	size := func(x nv) int { return len(x.n) + len(x.v) + 2 }
+	total := func() int {
+		t := 0
+		for _, x := range set {
+			t += size(x)
+		}
+		return t
+	}
+	rep := func(c byte, n int) string { return strings.Repeat(string(rune(c)), n) }
+	switch i % 3 {
+	case 0: // many medium labels; the last one is sized to hit T exactly
+		m := 8 + r.Intn(6)
+		L := T/m - 5
+		for j := 0; j < m-1; j++ {
+			set = append(set, nv{fmt.Sprintf("m%02d", j), rep(byte('a'+j), L)})
+		}
+		set = append(set, nv{fmt.Sprintf("m%02d", m-1), rep('q', T-total()-5)})
+	case 1: // a single label
+		set = append(set, nv{"a", rep('x', T-3)})
+	default: // k small labels, one big label making the running total reach T, two labels after it
+		k := (i / 3) % 6
+		for j := 0; j < k; j++ {
+			set = append(set, nv{fmt.Sprintf("a%d", j), "v"})
+		}
+		set = append(set, nv{"m", rep('y', T-total()-3)})
+		set = append(set, nv{"z0", "tail"}, nv{"z1", rep('t', 1+r.Intn(40))})
+	}
+	// the label that triggers the switch to the streaming hasher (else the last one)
+	trig, run := len(set)-1, 0
+	for j, x := range set {
+		if run+size(x) >= 1024 {
+			trig = j
+			break
+		}
+		run += size(x)
+	}
+	flat := func(mod string) []string {
+		var out []string
+		for j, x := range set {
+			v := x.v
+			if j == trig && mod != "" {
+				v = v[:len(v)-1] + mod
+			}
+			out = append(out, x.n, v)
+		}
+		return out
+	}
+	p := Prog{}
+	p.Ops = append(p.Ops, oNew(0, "fromstrings", flat("")...), oNew(1, "new", flat("#")...), o0("OSReset"))
+	for _, x := range set {
+		p.Ops = append(p.Ops, oAdd(x.n, x.v))
+	}
+	v3 := set[trig].v
+	p.Ops = append(p.Ops, oR("OSLabels", 2), oR("OBReset", 0), oSet(set[trig].n, v3[:len(v3)-1]+"%"), oR("OBLabels", 3))
+	p.Probes = [][]byte{bs(set[trig].n), bs(""), bs("nosuch")}
 	return p
 }
 
@@ -443,6 +518,22 @@ func classify(p *Prog, tS, tL, tD *Trans) class {
 					hit("equal-sets-different-symbol-tables-near-width-boundary")
 					i, j = K, K
 				}
+			}
+		}
+	}
+	if tS.Panic == "" {
+		for _, o := range tS.Regs {
+			t := 0
+			for _, l := range o.Range {
+				t += len(l[0]) + len(l[1]) + 2
+			}
+			switch {
+			case t >= 1024 && len(o.Range) == 1:
+				hit("hash-input>=1024-single-label")
+			case t >= 1024:
+				hit("hash-input>=1024")
+			case t >= 990:
+				hit("hash-input-990..1023")
 			}
 		}
 	}
